@@ -18,6 +18,18 @@ import sys
 
 from . import common
 
+def mirrors(pid):
+    """MIRRORS of a C01/C02/C04 harness: the central list (fingerprints/mirrors.json) plus what round 3 put under the
+    correspondence: the emission loop (app.setup / unsetup), the command line entry (setupcmd), the naming helpers
+    (utils) and the expansion of ${PRODUCT_DIR} / ${<NAME>_DIR} / ${PRODUCT_VERSION} when a table is loaded."""
+    with open(os.path.join(common.VERIF, "fingerprints", "mirrors.json")) as f:
+        base = [tuple(x) for x in json.load(f).get(pid, [])]
+    extra = [("python/eups/app.py", "setup"), ("python/eups/app.py", "unsetup"), ("python/eups/setupcmd.py", "*"),
+             ("python/eups/utils.py", "*"), ("python/eups/table.py", "Table.expandEupsVariables"),
+             ("python/eups/Product.py", "*")]
+    return base + [x for x in extra if x not in base]
+
+
 FUEL = 60                       # nesting depth of Eups.setup the model follows; deeper = out-of-fuel
 BASE_PATH = "/usr/bin:/bin"
 NAMES = ["a", "b", "c", "d", "e", "f", "g"]
